@@ -69,6 +69,27 @@ def main(tier):
                 if p is None or p[1] > 1 or (p[1] == 1 and not p[2]) or ("Y" in units and "m" in units and p[0]["m"] >= 12):
                     rep.disagree("ddiff %s: months not below 12 under years, or more than one minus sign" % "".join(units),
                                  {"A": dc.text(pts[i], False), "B": dc.text(pts[j], False), "out": line})
+        # year/month specifiers next to fixed units, date-times less than four weeks apart (incl. identical ones): years and months are 0 and the
+        # remaining components recombine to the whole duration
+        base = ch.ldn_of(2020, 2, 29)
+        near = [dc.point(ch, base + k, sod) for k, sod in ((0, 36000), (0, 36000), (0, 0), (1, 0), (-1, 86399), (3, 3600), (-20, 43200), (26, 1), (-27, 59), (0, 86399))]
+        for units in (["Y", "m", "d"], ["Y", "H"], ["m", "d", "H", "M", "S"], ["Y", "m", "d", "H", "M", "S"], ["Y", "d", "S"], ["m", "w", "d"]):
+            res, bad = dc.run_matrix(ddiff, near, True, units)
+            nrun += len(near)
+            rest = [u for u in units if u not in ("Y", "m")]
+            for (i, j), line in res.items():
+                a, bb = near[i], near[j]
+                dd, ds = bb["ldn"] - a["ldn"], bb["sod"] - a["sod"]
+                if abs(dd) > 27:
+                    continue
+                p = dc.parse(line, units)
+                if p is None or p[0].get("Y", 0) or p[0].get("m", 0):
+                    rep.disagree("ddiff %s: years/months not zero for date-times less than four weeks apart" % "".join(units),
+                                 {"A": dc.text(a, True), "B": dc.text(bb, True), "out": line})
+                    continue
+                execs.append([{"e": "Split", "cmd": "ddiff %s %s -f '%s'" % (dc.text(a, True), dc.text(bb, True), dc.fmt_of(units, "")),
+                               "fmt": "".join(units), "dd": dd, "ds": ds, "units": rest, "vals": {u: p[0][u] for u in rest},
+                               "minus": p[1], "lead": bool(p[2]), "out": line}])
         rep.notes["tool_runs"] = nrun
         cc.validate_and_report(rep, "DurationTrace", "DurationTrace.cfg", execs, lambda bad, ex: "ddiff split %s" % bad.get("fmt"), "ddiff_split",
                                group=lambda ex: ex[0]["fmt"])
